@@ -20,6 +20,7 @@ from hypothesis import strategies as st
 
 from vlib import urlref, urlgrammar as G, normgen as N, lists as L, transforms as T
 from vlib.core import Campaign, hyp_campaign
+from vlib import fuzz as F
 from checks.c01 import _fix_edges
 
 PROPERTY = "C07"
@@ -49,6 +50,8 @@ def _host_of(result):
         return None
     if h and (h != h.strip() or " " in h):
         return _OUTSIDE   # a 'host' made of / containing whitespace (e.g. a cache tail starting with a space) is not a registered name: outside the domain
+    if h and h.startswith("[") and h.endswith("]"):
+        h = h[1:-1]      # the helpers return an IP literal the way urlsplit().hostname does, without its brackets
     return h or None
 
 
@@ -284,8 +287,27 @@ def _gh_strategy(tier):
         lambda u: {"kind": "get_hostname", "url": u})
 
 
+def _fuzz_helpers(data):
+    if len(data) < 2:
+        return None
+    u = F.parseable_url_without_redirection(data[1:])
+    if u is None:
+        return None
+    k = data[0]
+    if k & 8:
+        variant = ["canonicalized", "normalized", "fingerprinted"][(k >> 4) % 3]
+        return {"kind": "stems", "url": u, "variant": variant, "kwargs": {}, "suffix_aware": bool(k & 1)}
+    return {"kind": "host_helpers", "url": u, "normalize_amp": bool(k & 1), "infer_redirection": bool(k & 2), "strip_suffix": bool(k & 4)}
+
+
+FUZZ_TARGETS = {"helpers": (_fuzz_helpers, lambda c: c.pop("_changed", True), None)}
+
+
 def campaigns(tier, seed):
     return [
+        Campaign("helpers-coverage-guided", F.fuzz_campaign("helpers", runs=(2500, 150000), max_len=72, dictionary=F.URL_DICT + ["co.uk", "fr-fr.", "xn--9ca", "amp-xn--9ca", "www2."],
+                                                            corpus=["\x00" + c for c in F.URL_CORPUS] + ["\x08" + c for c in F.URL_CORPUS]), F.ENGINE,
+                 bounds="libFuzzer over 1 selector byte + a UTF-8 string <= 71 bytes that parses (sane host, no redirection): hostname helpers and variant stems against the URL-level functions"),
         Campaign("bare-hostnames", _bare_enum, "enumeration", exhaustive=True,
                  bounds="%d label prefixes x %d base hosts x normalize_amp x strip_suffix x 3 paddings (+ 4 URL forms each)" % (len(LABELS_PRE), len(LABELS_BASE))),
         Campaign("hostname-helpers", hyp_campaign(_helpers_strategy, lambda v: v, _nt, _cl, examples=(700, 15000), lazy_nontrivial=True), "hypothesis",
